@@ -18,24 +18,37 @@
 (***************************************************************************)
 EXTENDS Presence
 
-CONSTANT DEV_HiBkgIgnored   \* Session.hello arms the background timer on {hi bkg:true} but never sets Session.background
+CONSTANTS DEV_HiBkgIgnored,      \* Session.hello arms the background timer on {hi bkg:true} but never sets Session.background
+          DEV_P2PLastDelSilent   \* {del topic} by the LAST subscriber of a LOADED p2p topic (hub.topicUnreg case 1.1.1): the topic is deleted
+                                 \* without any notice; the user's other sessions are not told "gone", 'me' keeps the contact
 
 MeOf(tn) == CHOOSE u \in Users : tn = "me:" \o u
 IsMeName(tn) == \E u \in Users : tn = "me:" \o u
 
-ApplyEv(r, e) ==
+\* a = the request, o.tl = the topic the request addresses was loaded before it
+ApplyEv(r, e, a, o) ==
   CASE e.k = "row"    -> [r EXCEPT !.st.sub[e.t][e.u] = [live |-> TRUE, P |-> e.p]]
     [] e.k = "new"    -> IF e.t \in Groups THEN Then(r, LAMBDA S : JoinGrp(S, e.t, e.u, e.p))
                          ELSE Then(r, LAMBDA S : NewP2P(S, e.t, e.u, e.p))
     [] e.k = "gone"   -> IF e.t \in Groups THEN Then(r, LAMBDA S : GoneGrp(S, e.t, e.u))
-                         ELSE Then(r, LAMBDA S : GoneP2P(S, e.t, e.u))
+                         ELSE LET v == Peer(e.t, e.u)
+                                  peerLive == r.st.sub[e.t][v].live IN
+                              IF o.tl
+                              THEN \* loaded topic: replyLeaveUnsub -> notifySubChange, except the last subscriber's {del topic}
+                                   IF a.a = "DelTopic" /\ ~peerLive
+                                   THEN (IF DEV_P2PLastDelSilent THEN [r EXCEPT !.st.sub[e.t][e.u] = NoSubP]
+                                         ELSE Then(r, LAMBDA S : Res([S EXCEPT !.sub[e.t][e.u] = NoSubP], <<Out(e.u, v, "gone", "", FALSE)>>)))
+                                   ELSE Then(r, LAMBDA S : GoneP2P(S, e.t, e.u))
+                              ELSE \* hub.topicUnreg case 1.2 (topic offline): "gone" to the user; "off" to the peer only if it is still subscribed
+                                   Then(r, LAMBDA S : Res([S EXCEPT !.sub[e.t][e.u] = NoSubP],
+                                                          <<Out(e.u, v, "gone", "", FALSE)>> \o (IF peerLive THEN <<Out(v, e.u, "off", "", FALSE)>> ELSE <<>>)))
     [] e.k = "mute"   -> Then(r, LAMBDA S : Mute(S, e.t, e.u))
     [] e.k = "unmute" -> Then(r, LAMBDA S : Unmute(S, e.t, e.u))
     [] e.k = "evict"  -> IF e.t \in Groups
                          THEN [r EXCEPT !.st.top[e.t].att = @ \ SessOf(e.u), !.st.top[e.t].pend = @ \ SessOf(e.u), !.st.top[e.t].cnt[e.u] = 0]
                          ELSE r
-RECURSIVE ApplyEvs(_, _)
-ApplyEvs(r, ev) == IF ev = <<>> THEN r ELSE ApplyEvs(ApplyEv(r, Head(ev)), Tail(ev))
+RECURSIVE ApplyEvs(_, _, _, _)
+ApplyEvs(r, ev, a, o) == IF ev = <<>> THEN r ELSE ApplyEvs(ApplyEv(r, Head(ev), a, o), Tail(ev), a, o)
 
 ActorOrder == UserOrder \o GroupOrder
 Same(S) == Res(S, <<>>)
@@ -51,11 +64,11 @@ ToFgAll(r, xs, s) ==
   IF xs = <<>> THEN r
   ELSE ToFgAll(IF s \in r.st.top[Head(xs)].pend THEN Then(r, LAMBDA X : ToFg(X, Head(xs), s)) ELSE r, Tail(xs), s)
 
-\* o = [ok, denied, fresh]: ok = the reply was a success, denied = it was {ctrl 403} (the binding passes the observed code;
+\* o = [ok, denied, fresh, tl]: tl = the addressed topic was loaded; ok = the reply was a success, denied = it was {ctrl 403} (the binding passes the observed code;
 \* the generator assumes success),
 \* fresh = the session named by a ConnectBg step was not connected (otherwise the step is a no-op)
 SeqStep(S, a, ev, o) ==
-  LET r0 == ApplyEvs(Same(S), ev)
+  LET r0 == ApplyEvs(Same(S), ev, a, o)
       ok == o.ok IN
   CASE a.a = "Sub" ->
          IF ~ok THEN (IF o.denied /\ a.t \in Groups /\ S.top[a.t].ph = "off"
@@ -81,5 +94,11 @@ SeqStep(S, a, ev, o) ==
     [] a.a = "Unload" ->
          LET x == IF IsMeName(a.t) THEN MeOf(a.t) ELSE a.t IN
          IF x \in Actors /\ S.top[x].ph = "live" /\ S.top[x].att = {} THEN Run(UnloadAtomic(S, x)) ELSE Run(r0)
+    [] a.a = "DelTopic" ->
+         \* the owner deletes the group: every subscription goes ("gone" events above: handleTopicTermination / presSubsOfflineOffline),
+         \* the actor exits without an "off" fan-out
+         IF ok /\ a.t \in Groups /\ \A u \in Users : ~r0.st.sub[a.t][u].live
+         THEN Run([r0 EXCEPT !.st.top[a.t] = OffTop])
+         ELSE Run(r0)
     [] OTHER -> Run(r0)
 =============================================================================
